@@ -322,4 +322,44 @@ def c04(pid, tier, replay):
     return simple.run_simple(pid, tier, plan, replay)
 
 
-CHECKS = {"C04": c04, "C07": c07, "C01": c01, "C02": c02, "C03": c03, "C19": c19, "C20": c20, "C18": c18, "C13": n13, "C14": n13, "C08": g08, "C09": g09, "C10": g09, "C11": g11, "C12": g12, "C15": g15, "C16": g16}
+def c05(pid, tier, replay):
+    n = 50 if tier == Q else 500
+    plan = {
+        "module": "TraceTranslate", "cfg": "TraceTranslate.cfg", "own": r"^(parse\..*|idgen\..*)$",
+        "design": [("IdGen", "IdGen.cfg", 900), ("TrCDX", "TrCDX_quick.cfg", 900)],
+        "jobs": [{"cmd": ["parse-run", "--n", str(n), "--seed", str(seed() * 100 + i)], "label": "shard%d" % i} for i in range(10)],
+        "replay_cmd": lambda path: ["parse-run", "--replay", path],
+        "result_keys": ("results", "o", "id1", "id2"), "nontrivial": lambda e: True,
+        "rule": "abstract schema-valid inputs: CycloneDX 1.3-1.5 component forests (depth <= 4, refs from a pool with the empty, "
+                "repeated, spaced and non-ASCII ref, with and without metadata component) and SPDX 2.3 documents (1-3 elements, "
+                "relationships to present, missing, NOASSERTION/NONE and document targets); each input is rendered in five JSON "
+                "layouts (compact, whitespace, reversed member order, every string \\u-escaped, indented with sorted members) "
+                "and every layout is parsed twice with auto-detection and once with the format stated; plus the public "
+                "identifier generator on 15 seed tuples; distinct = (input, layout, mode)",
+        "assumptions": ["relationships that involve the SPDX document element itself other than DESCRIBES are generated rarely "
+                        "and reported under their own finding key",
+                        "facts about strings (identifier-safe alphabet, reserved prefix) are computed by the harness"],
+    }
+    return simple.run_simple(pid, tier, plan, replay)
+
+
+def c06(pid, tier, replay):
+    n = 8 if tier == Q else 80
+    plan = {
+        "module": "TraceTranslate", "cfg": "TraceTranslate.cfg", "own": r"^sniff\..*$",
+        "design": [("SniffModel", "SniffModel.cfg", 900)],
+        "jobs": [{"cmd": ["sniff-run", "--n", str(n), "--seed", str(seed() * 100 + i)], "label": "shard%d" % i} for i in range(8)],
+        "replay_cmd": lambda path: ["sniff-run", "--replay", path],
+        "result_keys": ("o", "res", "err", "pos", "atype", "aversion", "aenc", "restlen"), "nontrivial": lambda e: True,
+        "rule": "writer output of seeded SPDX- and CycloneDX-class documents in the four readable formats x four indentations x "
+                "five JSON re-encodings (must be detected as exactly that format); near-miss declarations: the product of 10 "
+                "bomFormat x 11 specVersion x 10 spdxVersion values (case variants, neighbouring versions, numbers, null, "
+                "absent; a seeded third of the full product); tag-value and other non-JSON text; random bytes; after every "
+                "detection the stream offset and the bytes still readable are logged; distinct by input bytes",
+        "assumptions": ["a case-insensitive match of bomFormat counts as 'the declaration says so'",
+                        "when both declarations are present either format is accepted"],
+    }
+    return simple.run_simple(pid, tier, plan, replay)
+
+
+CHECKS = {"C05": c05, "C06": c06, "C04": c04, "C07": c07, "C01": c01, "C02": c02, "C03": c03, "C19": c19, "C20": c20, "C18": c18, "C13": n13, "C14": n13, "C08": g08, "C09": g09, "C10": g09, "C11": g11, "C12": g12, "C15": g15, "C16": g16}
